@@ -6,7 +6,10 @@ use serde_json::Value as J;
 
 pub fn run(r: &Report) -> i32 {
     let thorough = r.tier.thorough();
-    let mut progs = c01::generated_programs(r);
+    // both tiers execute the program space of C01's quick tier (three-party runs cost about 3x a global run and are
+    // crossed with the junk alphabet and two seed assignments); the thorough tier keeps every owner vector and output
+    // list of that space and uses more inputs and the full junk alphabet
+    let mut progs = c01::generated_programs_tier(r, false);
     
     // quick: depth 1 + planner-relevant depth 2/3 (reduced owner / output sets) + curated families
     if !thorough {
